@@ -147,13 +147,30 @@ def gen_graph_history(rng, maxn, length):
     l = C10.history(rng, maxn, 6, length, space_ok=False)
     init, ops = IC.ops_of(l)
     out = []
-    n_small = maxn <= 3
+    cur, stack = pad(list(init)), []
+    def width():
+        return max((len(x) for x in cur), default=0)
+    def pick():
+        # 4^n strings are enumerated by commutants (n<=5) and the commutator graph (n<=3): follow the current width,
+        # which edits with longer strings and expand() increase
+        qs = ["q.graph", "q.graph", "q.sub", "q.sub", "q.compsA", "q.pairs", "q.pairs"]
+        if width() <= 5:
+            qs.append("q.commutants")
+        if width() <= 3:
+            qs += ["q.commutants", "q.cgraph"]
+        return rng.choice(qs)
     for t in ops:
         if t[0].startswith("q."):
-            qs = ["q.graph", "q.graph", "q.sub", "q.sub", "q.compsA", "q.pairs", "q.pairs"] + (["q.commutants", "q.cgraph"] if n_small else ["q.commutants"])
-            out.append(rng.choice(qs))
+            out.append(pick())
         else:
             out.append(":".join(t))
+            if t[0] in ("copy", "ccopy"):
+                stack.insert(0, list(cur))
+            if t[0] == "swap":
+                if stack:
+                    cur, stack[0] = stack[0], cur
+            else:
+                cur = C10.spec_edit(cur, t)
     out.append("q.graph"); out.append("q.sub"); out.append("q.pairs")
     return G.line_of("hist", init, ";".join(out))
 
